@@ -169,6 +169,12 @@ class ModelsWorld(World):
                 step.setdefault("actor", "a0")
             return step
         actor = f"a{sched.randrange(cfg['actors'])}"
+        pending = getattr(self, "_pending", None)
+        if pending:
+            step = pending.pop(0)
+            if step["args"]["h"] in self.live:
+                step["actor"] = actor
+                return step
         if not self.live:
             return self._gen_new(actor, rng, val, flt)
         w = cfg["weights"]
@@ -323,7 +329,20 @@ class ModelsWorld(World):
         cls = r.cls
         x = rng.random()
         if cls == "sim":
-            if x < 0.35:
+            if TEMPLATES[r.tname].get("autovalues") and rng.random() < 0.3:
+                # the chain this template is for: flip the log status of the variable the autovalues read, update them
+                if rng.random() < 0.4:
+                    names = rng.sample(TEMPLATES[r.tname]["logly_names"], rng.randint(1, 2))
+                    now = {q.human: bool(q.logly) for q in r.real.quantities}
+                    m = {"k": "change_logly", "logly": not now.get(names[0], False), "names": names}
+                    if rng.random() < 0.7:
+                        # ... and, next, a replica that is used side by side with its source
+                        self._pending = [{"op": "spawn", "out": [self._name()],
+                                          "args": {"h": h, "kind": rng.choice(["copy", "pickle", "dill"]),
+                                                   "then": {"k": rng.choice(["autovalues", "autovalues", "steady"])}}}]
+                else:
+                    m = {"k": "autovalues"}
+            elif x < 0.35:
                 m = {"k": "assign", "values": self._draw_params(val, r.tname, nv, subset=True, rng=rng)}
                 if rng.random() < 0.12 and TEMPLATES[r.tname]["shocks"]:
                     # assigning a level to a shock is legal; the assignment rules reset it to zero in every variant
@@ -331,7 +350,7 @@ class ModelsWorld(World):
                 if rng.random() < 0.15:
                     # (level, change) pair for a variable
                     tv = [q.human for q in r.real.quantities if "TRANSITION_VARIABLE" in str(q.kind)]
-                    m["values"][rng.choice(tv)] = {"t": [round(val.uniform(0.5, 2.0), 3), round(val.uniform(0.9, 1.1), 3) if r.tname == "nonlin" else 0.0]}
+                    m["values"][rng.choice(tv)] = {"t": [round(val.uniform(0.5, 2.0), 3), round(val.uniform(0.9, 1.1), 3) if TEMPLATES[r.tname].get("growth") else 0.0]}
             elif x < 0.5:
                 m = {"k": "alter", "n": rng.randint(1, self.cfg["max_nv"])}
             elif x < 0.56 and nv > 1:
@@ -342,12 +361,20 @@ class ModelsWorld(World):
                 if r.tname == "nonlin" and rng.random() < 0.3:
                     # a documented keyword of the nonlinear steady-state solver; tight budgets make the call fail, legally
                     m["settings"] = {"max_iterations": rng.choice([2, 3, 200])}
-            elif x < 0.88:
+            elif x < 0.78 and TEMPLATES[r.tname].get("autovalues"):
+                m = {"k": "autovalues"}
+            elif x < 0.86:
                 m = {"k": "solve"}
+            elif x < 0.885:
+                # the tolerances belong to the model: a replica carries them, and overriding them in one object is
+                # nobody else's business
+                m = {"k": "override_tolerance", "values": {rng.choice(["eigenvalue", "equality"]): rng.choice([1e-3, 1e-6, 1e-9])}} \
+                    if rng.random() < 0.75 else {"k": "reset_tolerance"}
             elif x < 0.91:
                 m = {"k": "describe", "s": rng.choice(["", "model A", "renamed"])}
-            elif x < 0.95 and r.tname == "nonlin":
-                m = {"k": "change_logly", "logly": rng.random() < 0.5, "names": rng.sample(["y", "k", "c", "a"], rng.randint(1, 3))}
+            elif x < 0.95 and TEMPLATES[r.tname].get("logly_names"):
+                names = TEMPLATES[r.tname]["logly_names"]
+                m = {"k": "change_logly", "logly": rng.random() < 0.5, "names": rng.sample(names, rng.randint(1, min(3, len(names))))}
             else:
                 if not TEMPLATES[r.tname]["shocks"]:
                     return None
@@ -400,7 +427,23 @@ class ModelsWorld(World):
             return None
         r = self.live[h]
         kind = rng.choice(ADAPTERS[r.cls].spawn_kinds)
-        return {"op": "spawn", "out": [self._name()], "args": {"h": h, "kind": kind}}
+        step = {"op": "spawn", "out": [self._name()], "args": {"h": h, "kind": kind}}
+        if kind != "portable" and r.cls != "var" and rng.random() < 0.4:
+            # lock step: the same next operation on the source and on its replica must leave them equal again - what a
+            # replica recompiles for itself (and the source keeps from before) only shows when it is used
+            step["args"]["then"] = self._follow_up(rng, val, r)
+        return step
+
+    def _follow_up(self, rng, val, r):
+        t = TEMPLATES[r.tname]
+        if r.cls == "seq":
+            return rng.choice([{"k": "sequentialize"}, {"k": "assign", "values": self._draw_params(val, r.tname, 1, subset=True, rng=rng)}])
+        pool = [{"k": "steady"}, {"k": "solve"}, {"k": "assign", "values": self._draw_params(val, r.tname, 1, subset=True, rng=rng)}]
+        if t["shocks"]:
+            pool.append({"k": "reset_stds"})
+        if t.get("autovalues"):
+            pool += [{"k": "autovalues"}] * 3
+        return rng.choice(pool)
 
     def _gen_plan(self, flt, reading=False):
         cfg = self.cfg
@@ -672,7 +715,27 @@ class ModelsWorld(World):
             self._spawn_equivalence(opname, pred, (self._cheap(r), self._deep(r)), child, f"{kind} of {h}")
         self._isolation(opname, pred)
         self._register(step["out"][0], child)
+        if a.get("then"):
+            self._lockstep(opname, pred, h, step["out"][0], a["then"])
         return "ok"
+
+    def _lockstep(self, opname, pred, hp, hc, m):
+        parent, child = self.live[hp], self.live[hc]
+        opname = f"{opname}.then.{m['k']}"
+        rp = self._mutate(parent, m)
+        rc = self._mutate(child, m)
+        self.probes["lockstep_after_spawn"] += 1
+        if rp != rc:
+            raise Violation("spawn", opname, pred, "", f"the same {m['k']} on the source and on its replica: the source {'raised ' + rp if rp else 'returned'}, the replica {'raised ' + rc if rc else 'returned'}")
+        d = obs_diff(self._cheap(parent), self._cheap(child), RTOL)
+        if d:
+            raise Violation("spawn", opname, pred, "", f"after the same {m['k']} on both, the replica differs from its source in stored state: {d}")
+        d = obs_diff(self._deep(parent), self._deep(child), RTOL)
+        if d:
+            raise Violation("spawn", opname, pred, "", f"after the same {m['k']} on both, the replica behaves differently from its source: {d}")
+        self._isolation(opname, pred, exclude=(hp, hc))
+        self.digests[hp] = self._digest(parent)
+        self.digests[hc] = self._digest(child)
 
     # -- files ------------------------------------------------------------------------------------
     def _run_io(self, thunk, plan):
